@@ -207,9 +207,14 @@ func genSSTs(t *rapid.T, max int) []SharedJ {
 	for i := 0; i < n; i++ {
 		// (names and versions that run together the same way: t1 v1 / t v11, t1 v2 / t v12, ...)
 		s := SharedJ{Name: gen.Pick(t, []string{"t1", "t2", "tbl", "T", "t", "t1", "t"}), Version: gen.Pick(t, []int{1, 2, 3, 1, 2, 3, 1, 2, 11, 12, 21}), MaxID: -1}
-		for _, o := range out {
-			if o.Name == s.Name && o.Version == s.Version {
-				s.Name += fmt.Sprint(i)
+		for again := true; again; {
+			// (no two tables of a set share name and version)
+			again = false
+			for _, o := range out {
+				if o.Name == s.Name && o.Version == s.Version {
+					s.Name += fmt.Sprint("_", i)
+					again = true
+				}
 			}
 		}
 		k := gen.Range(t, 0, 6)
